@@ -1,21 +1,27 @@
 use crate::common::{CheckResult, Ctx};
 use serde_json::Value as J;
 
-pub mod c01;
-pub mod c31;
-
 pub type RunFn = fn(&Ctx);
 pub type ReplayFn = fn(&Ctx, &str, &J) -> Option<Result<CheckResult, String>>;
 
-pub fn lookup(id: &str) -> Option<(RunFn, ReplayFn)> {
-    Some(match id {
-        "C01" => (c01::run, c01::replay),
-        "C31" => (c31::run, c31::replay),
-        _ => return None,
-    })
+macro_rules! props {
+    ($($m:ident => $id:literal),* $(,)?) => {
+        $(pub mod $m;)*
+        pub fn lookup(id: &str) -> Option<(RunFn, ReplayFn)> {
+            Some(match id {
+                $($id => ($m::run, $m::replay),)*
+                _ => return None,
+            })
+        }
+        pub const ALL: &[&str] = &[$($id),*];
+    };
 }
 
-pub const ALL: &[&str] = &["C01", "C31"];
+props! {
+    c01 => "C01",
+    c02 => "C02",
+    c31 => "C31",
+}
 
 /// Internal sub-commands (`check __xyz ...`), e.g. child-process workloads for the crash engine.
 pub fn internal(cmd: &str, args: &[String]) -> i32 {
@@ -58,6 +64,11 @@ fn scratch_iql(path: &str) -> i32 {
             e.add_tuples(r, rows.clone());
         }
         let r = e.execute_tuples(&prog);
+        if std::env::var("VERIF_SHOW_IR").is_ok() {
+            for n in e.ir_nodes() {
+                println!("  IR: {n:?}");
+            }
+        }
         match r {
             Ok(mut ts) => {
                 ts.sort();
